@@ -191,3 +191,112 @@ def run_direct_frames(ctx: Ctx, workload: str, n: int, after=None) -> None:
             ctx.notes.setdefault("frame_exception_samples", [])
             if len(ctx.notes["frame_exception_samples"]) < 3:
                 ctx.notes["frame_exception_samples"].append(dict(task=c["task"], frame_id=c["frame_id"], error=f"{type(e).__name__}: {str(e)[:200]}", tb=traceback.format_exc(limit=5)[-600:]))
+
+
+# ----------------------------------------------------------------------------------------
+# 2D frames (detection2d / tracking2d / fp_validation2d): no range criteria, IoU2D pass/fail
+# ----------------------------------------------------------------------------------------
+def gen_frame_case_2d(r: random.Random) -> Dict[str, Any]:
+    task = r.choice(["detection2d", "detection2d", "tracking2d", "fp_validation2d"])
+    pool = ["car", "truck", "bus", "bicycle", "motorbike", "pedestrian"]
+    target = r.sample(pool, r.randint(1, len(pool)))
+    if r.random() < 0.4:
+        target.append("unknown")
+    if task == "fp_validation2d" or r.random() < 0.35:
+        target.append("false_positive")
+    cams = r.sample(["cam_front", "cam_back", "cam_front_left"], r.randint(1, 2))
+    cfg: Dict[str, Any] = {
+        "evaluation_task": task,
+        "target_labels": target,
+        "label_prefix": "autoware",
+        "matching_label_policy": r.choice(["DEFAULT", "ALLOW_UNKNOWN", "ALLOW_ANY"]),
+        "center_distance_thresholds": [round(r.uniform(5, 80), 1)],
+        "iou_2d_thresholds": [round(r.uniform(0.1, 0.7), 2)],
+    }
+    if task == "fp_validation2d":
+        cfg.pop("center_distance_thresholds")
+        cfg.pop("iou_2d_thresholds")
+    crit_labels = r.sample(target, len(target))
+    crit: Dict[str, Any] = {"target_labels": crit_labels}
+    if r.random() < 0.4:
+        crit["confidence_threshold_list"] = [round(r.uniform(0, 0.5), 2) for _ in crit_labels]
+    pf_labels = list(crit_labels)
+    if "false_positive" not in pf_labels and r.random() < 0.3:
+        pf_labels.append("false_positive")
+    pf = {"target_labels": pf_labels, "matching_threshold_list": [round(r.choice([0.05, 0.3, 0.5, 0.8]), 2) for _ in pf_labels]}
+    gts, ests = [], []
+    gt_pool = [l for l in target if l != "unknown"] or ["car"]
+    for k in range(r.randint(0, 10)):
+        lab = "false_positive" if (task == "fp_validation2d" or r.random() < 0.2) else r.choice(gt_pool + (["unknown"] if "unknown" in target else []))
+        gts.append(dict(key=f"g{k}", lab=lab, roi=(r.randint(0, 1500), r.randint(0, 900), r.randint(5, 300), r.randint(5, 300)), cam=r.choice(cams)))
+    est_names = [l for l in target if l != "false_positive"] + ["unknown"]
+    for k, g in enumerate(gts):
+        if r.random() < 0.8:
+            x, y, w, h = g["roi"]
+            d = r.choice([0, 2, 10, 60])
+            roi = (max(0, x + r.randint(-d, d)), max(0, y + r.randint(-d, d)), max(1, w + r.randint(-d, d)), max(1, h + r.randint(-d, d)))
+            name = g["lab"] if (g["lab"] != "false_positive" and r.random() < 0.7) else r.choice(est_names)
+            ests.append(dict(key=f"e{k}", name=name, roi=roi, cam=g["cam"] if r.random() < 0.9 else r.choice(cams), score=round(r.uniform(0.05, 1.0), 4)))
+    for k in range(r.choice([0, 1, 3])):
+        ests.append(dict(key=f"fa{k}", name=r.choice(est_names), roi=(r.randint(0, 1500), r.randint(0, 900), r.randint(5, 300), r.randint(5, 300)), cam=r.choice(cams), score=round(r.uniform(0.05, 1.0), 4)))
+    seen = set()
+    for e in ests:
+        while e["score"] in seen:
+            e["score"] = round(e["score"] * 0.999 + 1e-4, 6)
+        seen.add(e["score"])
+    return dict(task=task, cfg=cfg, crit=crit, pf=pf, frame_id=cams, gts=gts, ests=ests, kind="2d")
+
+
+def build_frame_2d(c: Dict[str, Any]):
+    from perception_eval.common.dataset import FrameGroundTruth
+    from perception_eval.common.schema import FrameID
+    from perception_eval.config import PerceptionEvaluationConfig
+    from perception_eval.evaluation.result.perception_frame_config import CriticalObjectFilterConfig, PerceptionPassFailConfig
+    from perception_eval.evaluation.result.perception_frame_result import PerceptionFrameResult
+    import perception_eval.manager.perception_evaluation_manager as mgr_mod
+
+    config = PerceptionEvaluationConfig(dataset_paths=[], frame_id=c["frame_id"], result_root_directory=scratch_dir(), evaluation_config_dict=dict(c["cfg"]))
+    conv = config.label_converter
+    t = 1_000_000
+
+    def mk(d, is_gt):
+        o = O.obj2d(d["roi"], "car", score=1.0 if is_gt else d["score"], uuid=d["key"], frame=FrameID.from_value(d["cam"]), t=t)
+        o.semantic_label = conv.convert_label(d["lab"] if is_gt else d["name"])
+        return o
+
+    gts = [mk(g, True) for g in c["gts"]]
+    ests = [mk(e, False) for e in c["ests"]]
+    gts = mgr_mod.filter_objects(gts, True, **{k: v for k, v in config.filtering_params.items() if k in ("target_labels",)})
+    ests = mgr_mod.filter_objects(ests, False, **{k: v for k, v in config.filtering_params.items() if k in ("target_labels",)})
+    frame_gt = FrameGroundTruth(unix_time=t, frame_name="0", objects=gts)
+    results = mgr_mod.get_object_results(
+        evaluation_task=config.evaluation_task,
+        estimated_objects=ests,
+        ground_truth_objects=gts,
+        target_labels=config.target_labels,
+        matching_label_policy=config.label_params["matching_label_policy"],
+    )
+    crit = CriticalObjectFilterConfig(evaluator_config=config, **c["crit"])
+    pf = PerceptionPassFailConfig(evaluator_config=config, **c["pf"])
+    fr = PerceptionFrameResult(object_results=results, frame_ground_truth=frame_gt, metrics_config=config.metrics_config, critical_object_filter_config=crit, frame_pass_fail_config=pf, unix_time=t, target_labels=config.target_labels)
+    return fr, config, ests, frame_gt
+
+
+def run_direct_frames_2d(ctx: Ctx, workload: str, n: int, after=None) -> None:
+    for idx in ctx.indices(workload, n):
+        r = ctx.rng(workload, idx)
+        c = gen_frame_case_2d(r)
+        ctx.begin_case(workload, idx, task=c["task"], frame_id=c["frame_id"], kind="2d", n_est=len(c["ests"]), n_gt=len(c["gts"]))
+        ctx.count("direct_frames.cases")
+        try:
+            fr, config, ests, frame_gt = build_frame_2d(c)
+            fr.evaluate_frame()
+            if after is not None:
+                after(c, fr, config)
+        except Exception as e:
+            import traceback
+
+            ctx.count("direct_frames.exceptions")
+            ctx.notes.setdefault("frame_exception_samples", [])
+            if len(ctx.notes["frame_exception_samples"]) < 3:
+                ctx.notes["frame_exception_samples"].append(dict(task=c["task"], frame_id=c["frame_id"], error=f"{type(e).__name__}: {str(e)[:200]}", tb=traceback.format_exc(limit=5)[-600:]))
